@@ -82,10 +82,11 @@ I3a6 == InvCells(N3, AllKeys, 6)
 CONSTANT Space   \* which input space this run explores
 ShapesOf ==
     CASE Space = "quick" ->
-           \* every kind over 3 rows x 3 currencies; inventories: 3 rows x presence patterns, 2 rows x (<= 2 lots of the
-           \* six (currency, cost) keys), 1 row x the full 3 currencies x <= 2 lots per currency space (numbers 1, -1)
+           \* every kind over 3 rows x 3 currencies; inventories: 3 rows x presence patterns, 2 rows x (<= 2 lots of AAA /
+           \* BBB with and without cost, 1 / -1: cancelling lots), 2 rows x (<= 2 currencies, 1 / 3/2), 1 row x the full
+           \* 3 currencies x <= 2 lots per currency space (numbers 1, -1)
            << S1("Amount", A01q, 3), S1("Amount", A5, 2), S1("Position", P1, 3), S1("Position", P5, 2),
-              S1("Inventory", I1o3, 3), S1("Inventory", I2a2, 2), S1("Inventory", I2qo2, 2), S1("Inventory", I2a6, 1),
+              S1("Inventory", I1o3, 3), S1("Inventory", I2m2, 2), S1("Inventory", I2qo2, 2), S1("Inventory", I2a6, 1),
               S2(A1, I1o2, 2), S2p(P1, Pq, 2) >>
       [] Space = "thorough" ->
            \* 3 rows for every kind (inventories: 3 numbers x presence patterns; <= 2 lots over the six keys; cancelling
